@@ -326,7 +326,9 @@ static void composite_case (vf_rng *r)
     if (!rq_build (&q2, &r2)) { rq_free (&q1); return; }
     vf_buf_snapshot (&q2.dst.buf);
     int n = (int)vf_range (r, 1, 4), use_tri = vf_chance (r, 1, 3);
-    pixman_trapezoid_t tr[4]; pixman_triangle_t tri[4];
+    /* long lists: more shapes than any small fixed buffer holds (one saturating mask, one composite - not additive over the list) */
+    if (vf_chance (r, 1, 10)) { n = vf_chance (r, 1, 2) ? (int)vf_range (r, 5, 20) : (int)vf_range (r, 30, 48); vf_count ("long_shape_lists", 1); }
+    static pixman_trapezoid_t tr[48]; static pixman_triangle_t tri[48];
     for (int i = 0; i < n; i++) { gen_trap (r, &tr[i], q1.dst.w, q1.dst.h, 0);
         tri[i].p1.x = fxr (r, -6, q1.dst.w + 6); tri[i].p1.y = fxr (r, -4, q1.dst.h + 4); tri[i].p2.x = fxr (r, -6, q1.dst.w + 6); tri[i].p2.y = fxr (r, -4, q1.dst.h + 4); tri[i].p3.x = fxr (r, -6, q1.dst.w + 6); tri[i].p3.y = fxr (r, -4, q1.dst.h + 4); }
     int xs = (int)vf_range (r, -4, 6), ys = (int)vf_range (r, -3, 3), xd = (int)vf_range (r, -5, 5), yd = (int)vf_range (r, -3, 3);
@@ -403,7 +405,7 @@ static void composite_case (vf_rng *r)
                     }
                     if (explained) snprintf (key, sizeof key, "C12:composite-whole-destination-box-ignores-offset:%s", ro_op_name (op));
                 }
-                char tds[700] = ""; int kk = 0; for (int i = 0; i < n && !use_tri; i++) { char one[300]; tdesc (&tr[i], one, sizeof one); kk += snprintf (tds + kk, sizeof tds - kk, " T%d{%s}", i, one); }
+                char tds[700] = ""; int kk = 0; for (int i = 0; i < n && i < 2 && !use_tri; i++) { char one[300]; tdesc (&tr[i], one, sizeof one); kk += snprintf (tds + kk, sizeof tds - kk, " T%d{%s}", i, one); }
                 vf_violation (key, "pixel (%d,%d): composite_%s leaves %x, rasterise-into-a-%s-mask-then-composite leaves %x (before: %x)%s", fx, fy, use_tri ? "triangles" : "trapezoids",
                               vf_get_px (vf_buf_row (&q1.dst.buf, fy), q1.dst.buf.bpp, fx), rp_name (mf), vf_get_px (vf_buf_row (&q2.dst.buf, fy), q2.dst.buf.bpp, fx), vf_get_px (vf_buf_snaprow (&q2.dst.buf, fy), q2.dst.buf.bpp, fx), tds);
             }
